@@ -283,6 +283,41 @@ def truncations(ctx, binary, tmpl, sources, label):
     return len(owner)
 
 
+def size_lies(ctx, binary):
+    """loose files whose header declares another size than the stream holds (Loose.tla: ReadOk needs size = length of the body):
+    every reader must answer with an error - neither data nor a panic. Sizes straddle the 64-byte header buffer."""
+    tdir = os.path.join(ctx.work, "lies")
+    os.makedirs(tdir, exist_ok=True)
+    cases, meta = [], []
+    for actual in (0, 1, 50, 56, 57, 58, 64, 65, 100, 5000, 70000):
+        for declared in sorted({0, 1, actual - 1, actual + 1, 7, 56, 57, 63, 64, 65, 2 * actual + 3}):
+            if declared < 0 or declared == actual:
+                continue
+            raw = b"blob %d\0" % declared + bytes((j * 7) % 251 for j in range(actual))
+            path = os.path.join(tdir, "lie-%d-%d" % (declared, actual))
+            with open(path, "wb") as f:
+                f.write(zlib.compress(raw))
+            fake = "%020d%020d" % (declared, actual)
+            cases.append({"op": "read", "dir": tdir, "id": fake, "place": {"from": path, "len": os.path.getsize(path)},
+                          "out": os.path.join(ctx.work, "lout-%d.bin" % len(cases)), "handle": True})
+            meta.append((declared, actual))
+    res = ctx.harness(binary, cases, timeout=600)
+    for (declared, actual), c, r in zip(meta, cases, res):
+        ctx.nontrivial(("lie", declared, actual))
+        case = {"op": "size-lie", "declared": declared, "actual": actual}
+        if "got" not in r:
+            ctx.violation({"kind": "crash", "case": case, "classes": ["crash", "size-lie"], "result": r,
+                           "what": "reading a loose object whose header declares %d bytes for a body of %d bytes panicked" % (declared, actual)})
+            continue
+        for api in ("find", "handle"):
+            g = r["got"].get(api)
+            if not (isinstance(g, dict) and "error" in g):
+                ctx.violation({"kind": "size-lie", "case": case, "classes": ["size-lie"], "observed": g,
+                               "what": "%s answered %s for a loose object whose header declares %d bytes for a body of %d bytes (must be an error)"
+                                       % (api, json.dumps(g)[:120], declared, actual)})
+    ctx.cov["size_lies"] = len(cases)
+
+
 def git_typed_objects(ctx, tmpl, gdir):
     """valid trees, commits and tags of sizes around the header buffer, made by git"""
     env = git_env(gdir, tmpl)
@@ -366,6 +401,7 @@ def run(ctx):
             if (gi[:2], gi[2:]) in gfiles:
                 src_git.append((o, gfiles[(gi[:2], gi[2:])]))
     flush(ctx)
+    size_lies(ctx, binary)
     n1 = truncations(ctx, binary, tmpl, src_gix, "gix-written")
     n2 = truncations(ctx, binary, tmpl, src_git, "git-written")
     ctx.cov["truncations"] = {"gix-written": n1, "git-written": n2, "rejected": flush(ctx)}
